@@ -273,3 +273,30 @@ def u_r8_nullable_fields(schema: Schema, rep: Report):
     rep.unit("nullable_field_reads", n)
     if n == 0:
         rep.note("U-R8 undecided: no .text / .tail read found in groom / reducer / from_etree")
+
+
+def u_r9_overrides_only_retag(schema: Schema, rep: Report):
+    """class-specific grooming renames tags; it never edits data"""
+    rep.rule("U-R9", "groom() / ungroom() overrides of model classes only rename elements (<child>.tag = ...) on their way to and from the model: none of them writes element data (.text / .tail), attributes, or adds / removes / reorders children - the reader would hand the model a value that is not in the document, and what was written would not be read back")
+    n = 0
+    for ci, nm, fn in groom_overrides(schema):
+        n += 1
+        bad = None
+        for st in ast.walk(fn):
+            tgts = []
+            if isinstance(st, ast.Assign):
+                tgts = st.targets
+            elif isinstance(st, (ast.AugAssign, ast.AnnAssign)):
+                tgts = [st.target]
+            for t in tgts:
+                if isinstance(t, ast.Attribute) and t.attr in ("text", "tail", "attrib"):
+                    bad = bad or (st, f"{text(t)} = ...")
+                if isinstance(t, ast.Subscript) and isinstance(t.value, ast.Attribute) and t.value.attr == "attrib":
+                    bad = bad or (st, f"{text(t)} = ...")
+            if isinstance(st, ast.Call) and isinstance(st.func, ast.Attribute) and st.func.attr in ("remove", "insert", "append", "extend", "clear", "set") and not (isinstance(st.func.value, ast.Name) and st.func.value.id in ("logger", "warnings")):
+                # structural edits of the element (list-like API of ET.Element)
+                recv = st.func.value
+                if isinstance(recv, ast.Name) and recv.id in params_of(fn) + ["elem", "copy", "root", "node"]:
+                    bad = bad or (st, f"{text(st)[:50]}")
+        rep.check("U-R9", f"{ci.name}.{nm}:renames-only", bad is None, f"{ci.name}.{nm} executes {bad[1]}: element data / structure is edited on the way into (or out of) the model, so the converted value differs from the document's and a written instance does not read back equal" if bad else "", loc(ci, bad[0] if bad else fn))
+    rep.unit("groom_overrides_checked", n)
